@@ -1,6 +1,7 @@
 --------------------------- MODULE CommentAttachMC ---------------------------
 EXTENDS CommentAttach, Json, CSV, IOUtils
 AllKinds == {"cpp", "c", "blank", "decl", "cdecl"}
+EnumKinds == {"cpp", "c", "blank", "decl", "cdecl", "declt"}
 DumpFile == IF "VERIF_DUMP" \in DOMAIN IOEnv THEN IOEnv.VERIF_DUMP ELSE ""
 DumpConstraint ==
   IF done /\ DumpFile # "" /\ DeclLines # {}
